@@ -3,7 +3,7 @@
 # Same as try_patch.sh but on an isolated copy (scratch worktree of /repo + copy of the harness whose path
 # dependency points at that worktree), so /repo itself stays untouched while long runs are using it.
 P="$(readlink -f "$1")"
-M=/tmp/mut
+M="${MUT_DIR:-/tmp/mut}"
 if [ ! -d $M/repo ]; then mkdir -p $M; git -C /repo worktree prune; git -C /repo worktree add -q --detach $M/repo HEAD || exit 3; cp /repo/Cargo.lock $M/repo/; fi
 git -C $M/repo checkout -q --detach "$(git -C /repo rev-parse HEAD)" && git -C $M/repo checkout -q -- . && git -C $M/repo clean -fdq -e Cargo.lock -e target
 mkdir -p $M/verif
